@@ -301,6 +301,10 @@ def v_mul(a, b):
 
 
 def v_neg(a):
+    if isinstance(a, SymSeq):
+        # unary minus has no list/tuple meaning: the operand is a 1-D ndarray, negated element by element
+        ps = (lambda k, _p=a.psum: v_neg(_p(k))) if a.psum is not None else None
+        return SymSeq(a.length, lambda i, _g=a.getter: v_neg(_g(i)), "neg", psum=ps)
     if isinstance(a, SymC):
         return SymC(v_neg(a.re), v_neg(a.im))
     if concrete(a):
